@@ -260,7 +260,7 @@ func CanonPath(p Path) string {
 // ValueSet is a set of values keyed by Value.Key().
 type ValueSet map[string]Value
 
-func (s ValueSet) Add(v Value)  { s[v.Key()] = v }
+func (s ValueSet) Add(v Value)    { s[v.Key()] = v }
 func (s ValueSet) Keys() []string { return SortedKeys(s) }
 
 // Denote returns the set of values the path reaches from the focus node. prefixes maps prefix -> namespace.
